@@ -9,8 +9,15 @@ for p in props:
     pid = p['id']
     spec = os.path.join(root, 'harness', pid, 'spec.json')
     m = meta.get(pid, {})
-    if os.path.exists(spec) and m.get('registered'):
-        s = json.load(open(spec))
+    s = json.load(open(spec)) if os.path.exists(spec) else {}
+    if s and (m.get('registered') or s.get('registered')):
+        if 'level_text' not in m:
+            units = s.get('what') or ', '.join(h['func'] for u in (s.get('units') or [s]) for h in u['harnesses'] if not h.get('twin'))
+            m['level_text'] = ("Bounded symbolic model checking of " + units + ". Bounds: " + '; '.join(s.get('bounds', [])) +
+                               ". Every value of the symbolic inputs inside these bounds is decided by the solver; nothing outside them is claimed.")
+        if 'level_note' not in m:
+            m['level_note'] = ("Trusted: go/ssa translation, the engine's instruction semantics (every counterexample is replayed natively before it is reported), z3. Assumptions/stubs: " +
+                               '; '.join(s.get('assumptions', []) or ['none beyond DESIGN.md §3.5']))
         checks.append({
             "property_id": pid,
             "quick_cmd": f"./run {pid} quick",
